@@ -437,9 +437,14 @@ fn directed() -> Vec<(&'static str, Vec<Vec<(usize, usize, &'static str)>>)> {
 
 pub fn run(args: &Args) {
     let mut sink = Sink::new("C08", &args.out, &["Model.Buffer"], args.seed, &args.tier);
-    sink.rule("random originals (0..14 characters over an alphabet of 1/2/3/4-byte characters incl. the extremes of every width) x 1..4 successive batches of 1..4 ordered non-overlapping edits on character boundaries (delete / insert / shrink / expand / equal length; at start, middle, end; adjacent) through replace_ref/own/char/char_iter; every byte offset and every character index of the result is queried. Separate stream of malformed batches (unsorted, overlapping, reversed, off-boundary, out of range) compares Ok/Err/panic only. non-trivial = in scope, at least one edit, distinct Coq term");
+    sink.rule("random originals (0..14 characters over an alphabet of 1/2/3/4-byte characters incl. the extremes of every width) x 1..4 successive batches of 1..4 ordered non-overlapping edits on character boundaries (delete / insert / shrink / expand / equal length; at start, middle, end; adjacent) through replace_ref/own/char/char_iter; every byte offset and every character index of the result is queried. Separate stream of malformed batches (unsorted, overlapping, reversed, off-boundary, out of range) compares Ok/Err/panic only. non-trivial = in scope, at least one edit, distinct Coq term. PIPELINE stream (shared generators with C01): the real tokenizer on generated plugin stacks x dictionaries (display form != key, exact / prefix-only / other-length split declarations) x modes A/B/C x requested field subsets x on-demand split_into x reuse sessions; for every reported morpheme begin_c/end_c = code points of the original before begin/end, slice by code points = slice by bytes = surface");
     let grammar = test_grammar();
     if let Some(p) = &args.replay {
+        if crate::c01::is_pipeline_case(p) {
+            crate::c01::replay_for(crate::c01::Prop::C08, &mut sink, p);
+            sink.finish();
+            return;
+        }
         let v: Value = serde_json::from_str(&std::fs::read_to_string(p).unwrap()).unwrap();
         let case = &v["case"];
         if case["kind"] == "c08" {
@@ -518,6 +523,10 @@ pub fn run(args: &Args) {
         emit(&mut sink, &orig, &batches, &out, false);
         sink.tag("malformed_stream");
     }
+    // pipeline level (first sentence of the property): every morpheme the real tokenizer reports -- modes A/B/C, on-demand
+    // splits, requested field subsets, dictionaries whose display forms differ from their keys, reuse sessions -- must carry
+    // code-point offsets equal to the number of code points of the original before its byte offsets
+    crate::c01::pipeline(crate::c01::Prop::C08, &mut sink, args, &mut rng);
     sink.finish();
 }
 
